@@ -944,7 +944,7 @@ func TestVerif_C07Mgr(t *testing.T) {
 		res.Hit(fmt.Sprintf("%s:g-%s:from-%s", v.Sit, v.Gvia, v.Path))
 		stats[run.Outcome]++
 		key := func(what string) string {
-			return fmt.Sprintf("mgr:%s:%s:from-%s:%s-%s", what, v.Sit, v.Path, v.Route, v.Base)
+			return fmt.Sprintf("mgr:%s:%s:from-%s:%s", what, v.Sit, v.Path, map[string]string{"pending": "reached-pending-machine", "fresh": "read-by-fresh-machine", "drop": "dropped-by-manager"}[v.Route])
 		}
 		detail := func(extra map[string]any) map[string]any {
 			d := map[string]any{"vector": v, "class": cls, "outcome_after_rejected": run.Outcome}
@@ -971,22 +971,25 @@ func TestVerif_C07Mgr(t *testing.T) {
 		}
 		if run.AfterR != run.Before {
 			diff := c07Diff(run.Before, run.AfterR)
-			res.Mismatch(key("rejected-message-changed-"+c07DiffFields(diff)), fmt.Sprintf("%s: %s from %s was rejected (handshake still usable) but is not a stutter step of the manager state: %v",
-				v.Sit, cls, v.Path, diff), detail(map[string]any{"diff": diff}))
+			res.Mismatch(key("rejected-message-changed-state"), fmt.Sprintf("%s: %s from %s was rejected (handshake still usable) but is not a stutter step of the manager state: %v",
+				v.Sit, cls, v.Path, diff), detail(map[string]any{"diff": diff, "fields": c07DiffFields(diff)}))
+			continue // what follows is a consequence
+		}
+		if run.Remote != v.Remote {
+			res.Mismatch(key("tunnel-remote-"+run.Remote), fmt.Sprintf("%s: after the rejected %s from %s the genuine message (%s) completes a tunnel that sends to %q, specification %q",
+				v.Sit, cls, v.Path, v.Gvia, run.Remote, v.Remote), detail(nil))
+			continue
 		}
 		if run.Final != ctl.Final {
 			diff := c07Diff(ctl.Final, run.Final)
-			res.Mismatch(key("genuine-completes-differently-"+c07DiffFields(diff)), fmt.Sprintf("%s: after the rejected %s from %s the genuine message (%s) leaves a state that differs from the undisturbed run: %v",
-				v.Sit, cls, v.Path, v.Gvia, diff), detail(map[string]any{"diff": diff}))
+			res.Mismatch(key("genuine-completes-differently"), fmt.Sprintf("%s: after the rejected %s from %s the genuine message (%s) leaves a state that differs from the undisturbed run: %v",
+				v.Sit, cls, v.Path, v.Gvia, diff), detail(map[string]any{"diff": diff, "fields": c07DiffFields(diff)}))
+			continue
 		}
 		if strings.Join(run.Emissions, "\n") != strings.Join(ctl.Emissions, "\n") || fmt.Sprint(run.Tun) != fmt.Sprint(ctl.Tun) {
 			diff := c07Diff(strings.Join(ctl.Emissions, "\n"), strings.Join(run.Emissions, "\n"))
 			res.Mismatch(key("emissions-differ"), fmt.Sprintf("%s: after the rejected %s from %s the nodes emit differently from the undisturbed run once the genuine message has arrived: %v (tun %v vs %v)",
 				v.Sit, cls, v.Path, diff, run.Tun, ctl.Tun), detail(map[string]any{"diff": diff}))
-		}
-		if run.Remote != v.Remote {
-			res.Mismatch(key("tunnel-remote-"+run.Remote), fmt.Sprintf("%s: after the rejected %s from %s the genuine message (%s) completes a tunnel that sends to %q, specification %q",
-				v.Sit, cls, v.Path, v.Gvia, run.Remote, v.Remote), detail(nil))
 		}
 	}
 	res.Extra["mgr"] = stats
